@@ -2,6 +2,7 @@ import Brc20.Model.DriverT
 import Brc20.Model.DriverC
 import Brc20.Model.DriverP
 import Brc20.Model.DriverF
+import Brc20.Model.DriverE
 
 open Brc20
 
@@ -25,12 +26,20 @@ partial def loopF (h : IO.FS.Stream) (out : IO.FS.Stream) (d : Config.Dir) : IO 
   out.putStrLn o
   loopF h out d'
 
+partial def loopE (h : IO.FS.Stream) (out : IO.FS.Stream) (n : Node) : IO Unit := do
+  let line ← h.getLine
+  if line.isEmpty then return ()
+  let (n', o) := DriverE.step n line
+  out.putStrLn o
+  loopE h out n'
+
 def main (args : List String) : IO UInt32 := do
   let stdin ← IO.getStdin
   let stdout ← IO.getStdout
   match args with
   | ["T"] => loopT stdin stdout {}; return 0
   | ["C"] => loopStateless stdin stdout DriverC.step; return 0
+  | ["E"] => loopE stdin stdout {}; return 0
   | ["F"] => loopF stdin stdout .missing; return 0
   | ["P"] => loopStateless stdin stdout DriverP.step; return 0
   | _ => IO.eprintln "usage: brc20model <suite>"; return 2
